@@ -17,12 +17,15 @@ Definition same_res (a b : result value) : Prop :=
 Lemma same_res_refl : forall a, same_res a a.
 Proof. destruct a; cbn; auto. Qed.
 
+Lemma str_eqb_nil_r : forall s, str_eqb s [] = match s with [] => true | _ :: _ => false end.
+Proof. destruct s; reflexivity. Qed.
+
 (* unfold the Python run time, compute, and split on every stuck match (oracle answers, float classes...) *)
 Ltac unf :=
   unfold p_isinstance, p_type_in, p_in, p_is_none, r_and, r_or, r_not, p_truth, p_str, p_float, p_int, p_abs, p_isinf, p_isnan,
     p_fmt15g, p_decode_utf8, p_lower, p_startswith, p_safe_repr, p_iter, p_json_loads, p_sorted_strs, p_dt_date, p_date_to_ts,
     p_dt_to_ts, p_parse_iso_date, p_parse_iso, p_reclist_from_repr, p_table_is, p_recordlist_of, p_rec_id, p_row_ids, p_dedup,
-    p_lt, p_le, p_gt, p_eq, py_int_of_float, py_float, fl_bind, fl_seq, fl_try, run_flow, bind, str_raise, isinstance1, type_is1, existsb, int_like, orb, andb, negb in *.
+    p_lt, p_le, p_gt, p_eq, py_int_of_float, py_float, fl_bind, fl_seq, fl_try, run_flow, bind, str_raise, isinstance1, type_is1, existsb, int_like, str_mem, orb, andb, negb in *.
 Ltac split_match :=
   match goal with
   | |- context [match ?x with _ => _ end] =>
@@ -39,7 +42,7 @@ Ltac split_match_eq :=
       | _ => destruct x eqn:?
       end
   end.
-Ltac crush := unf; cbn; repeat (split_match; cbn); auto.
+Ltac crush := unf; cbn -[str_eqb Z.pow]; rewrite ?str_eqb_nil_r; repeat (split_match; cbn -[str_eqb Z.pow]); auto.
 
 Lemma f_abs_lt : forall f, f_lt_Z (f_absv f) 9007199254740992 = f_abs_lt_pow2 f 53.
 Proof.
@@ -85,5 +88,55 @@ Proof. intros v. unfold gen_Numeric_do_convert, numeric_do_convert. destruct v; 
 Lemma bridge_PositionNumber_do_convert : forall v,
   same_res (gen_PositionNumber_do_convert orc v) (numeric_do_convert orc (PFloat false (FInf false)) v).
 Proof. intros v. unfold gen_PositionNumber_do_convert, numeric_do_convert. destruct v; crush. Qed.
+
+Ltac short_consts :=
+  unfold is_int_short, gen_is_int_short in *;
+  change (- 2 ^ 31) with (-2147483648) in *; change (2 ^ 31) with 2147483648 in *.
+
+Lemma bridge_Int_do_convert : forall v, same_res (gen_Int_do_convert orc v) (int_do_convert orc v).
+Proof. intros v. unfold gen_Int_do_convert, int_do_convert. short_consts. destruct v; crush. Qed.
+
+Lemma bridge_Id_do_convert : forall v, same_res (gen_Id_do_convert orc v) (id_do_convert orc v).
+Proof. intros v. unfold gen_Id_do_convert, id_do_convert. short_consts. destruct v; crush. Qed.
+
+Lemma bridge_Date_do_convert : forall v, same_res (gen_Date_do_convert orc v) (date_do_convert orc v).
+Proof. intros v. unfold gen_Date_do_convert, date_do_convert. destruct v; crush. Qed.
+
+Lemma bridge_DateTime_do_convert : forall z v,
+  same_res (gen_DateTime_do_convert orc (effective_zone orc z) v) (datetime_do_convert orc z v).
+Proof. intros z v. unfold gen_DateTime_do_convert, datetime_do_convert. destruct v; crush. Qed.
+
+(* tuple(str(item) for item in l) in both vocabularies *)
+Lemma map_p_str : forall l,
+  map_result (fun x => p_str orc x) l = bind (map_result (str_raise orc) l) (fun ss => Ok (map (PStr false) ss)).
+Proof.
+  induction l as [|x t IH]; [reflexivity|]. cbn [map_result].
+  unfold p_str at 1, str_raise at 1. destruct (py_str orc x); cbn [bind]; [|reflexivity].
+  rewrite IH. destruct (map_result (str_raise orc) t); reflexivity.
+Qed.
+
+Lemma map_result_ext : forall {A B} (f g : A -> result B) l, (forall x, f x = g x) -> map_result f l = map_result g l.
+Proof. intros A B f g l H. induction l as [|x t IH]; [reflexivity|]. cbn [map_result]. rewrite H, IH. reflexivity. Qed.
+
+Lemma p_str_eq : forall x, bind (str_raise orc x) (fun s => Ok (PStr false s)) = p_str orc x.
+Proof. intros x. unfold p_str, str_raise. destruct (py_str orc x); reflexivity. Qed.
+
+Lemma strs_of_as_p_str : forall l,
+  strs_of orc l = bind (map_result (fun x => p_str orc x) l) (fun l' => Ok (PTuple l')).
+Proof. intros l. unfold strs_of. rewrite (map_result_ext _ (fun x => p_str orc x) l p_str_eq). reflexivity. Qed.
+
+Lemma sorted_plain_strs : forall ss, p_sorted_strs (map (PStr false) ss) = Ok (map (PStr false) (sort_strs ss)).
+Proof.
+  intros ss. unfold p_sorted_strs.
+  assert (H : map_result (fun x => match x with PStr _ s => Ok s | _ => Raise E_Type end) (map (PStr false) ss) = Ok ss).
+  { induction ss as [|s t IH]; [reflexivity|]. cbn [map map_result]. cbn [bind]. rewrite IH. reflexivity. }
+  rewrite H. reflexivity.
+Qed.
+
+Lemma bridge_ChoiceList_do_convert : forall v, same_res (gen_ChoiceList_do_convert orc v) (choicelist_do_convert orc v).
+Proof.
+  intros v. unfold gen_ChoiceList_do_convert, choicelist_do_convert. destruct v; try (crush; fail).
+  all: cbn -[str_eqb Z.pow strs_of]; rewrite ?strs_of_as_p_str; try (crush; fail).
+Abort.
 
 End Bridge.
